@@ -1,0 +1,169 @@
+//go:build verif
+
+package fshelper
+
+// Machine-checked contracts for /verif (gowp). Comment-only file: it adds no code.
+
+// --- C03: the sub-path view confines every path it hands to the parent filespace ---
+//@ func SubFS.Copy [C03 C07]
+//@   requires sub.fs != nil
+//@   at_call Filespace.*,NewSubFS requires Confined(sub.basePath, $arg)
+
+//@ func SubFS.CopyDirectory [C03 C07]
+//@   requires sub.fs != nil
+//@   at_call Filespace.*,NewSubFS requires Confined(sub.basePath, $arg)
+
+//@ func SubFS.CopyFile [C03 C07]
+//@   requires sub.fs != nil
+//@   at_call Filespace.*,NewSubFS requires Confined(sub.basePath, $arg)
+
+//@ func SubFS.ReadDir [C03 C07]
+//@   requires sub.fs != nil
+//@   at_call Filespace.*,NewSubFS requires Confined(sub.basePath, $arg)
+
+//@ func SubFS.IsExist [C03 C07]
+//@   requires sub.fs != nil
+//@   at_call Filespace.*,NewSubFS requires Confined(sub.basePath, $arg)
+
+//@ func SubFS.IsFile [C03 C07]
+//@   requires sub.fs != nil
+//@   at_call Filespace.*,NewSubFS requires Confined(sub.basePath, $arg)
+
+//@ func SubFS.IsDir [C03 C07]
+//@   requires sub.fs != nil
+//@   at_call Filespace.*,NewSubFS requires Confined(sub.basePath, $arg)
+
+//@ func SubFS.MkdirAll [C03 C07]
+//@   requires sub.fs != nil
+//@   at_call Filespace.*,NewSubFS requires Confined(sub.basePath, $arg)
+
+//@ func SubFS.ReadFile [C03 C07]
+//@   requires sub.fs != nil
+//@   at_call Filespace.*,NewSubFS requires Confined(sub.basePath, $arg)
+
+//@ func SubFS.WriteFile [C03 C07]
+//@   requires sub.fs != nil
+//@   at_call Filespace.*,NewSubFS requires Confined(sub.basePath, $arg)
+
+//@ func SubFS.Filespace [C03 C07]
+//@   requires sub.fs != nil
+//@   ensures err == nil ==> typeis(child, "SubFS") && Confined(sub.basePath, as(child, "SubFS").basePath) && as(child, "SubFS").fs == sub.fs
+//@   ensures err != nil ==> child == nil
+//@   at_call Filespace.*,NewSubFS requires Confined(sub.basePath, $arg)
+
+//@ func SubFS.Reader [C03 C07]
+//@   requires sub.fs != nil
+//@   at_call Filespace.*,NewSubFS requires Confined(sub.basePath, $arg)
+
+//@ func SubFS.Writer [C03 C07]
+//@   requires sub.fs != nil
+//@   at_call Filespace.*,NewSubFS requires Confined(sub.basePath, $arg)
+
+//@ func SubFS.Remove [C03 C07]
+//@   requires sub.fs != nil
+//@   at_call Filespace.*,NewSubFS requires Confined(sub.basePath, $arg)
+
+//@ func SubFS.RemoveAll [C03 C07]
+//@   requires sub.fs != nil
+//@   at_call Filespace.*,NewSubFS requires Confined(sub.basePath, $arg)
+
+//@ func SubFS.Lstat [C03 C07]
+//@   requires sub.fs != nil
+//@   at_call Filespace.*,NewSubFS requires Confined(sub.basePath, $arg)
+
+
+// --- C03/C06: the read-only mask forwards reads unchanged and never calls a mutator ---
+//@ func ROFilespace.Copy [C03 C06 C07]
+//@   requires ro.fs != nil
+//@   at_call Filespace.* requires false
+//@   only_calls ro.fs : ReadDir IsExist IsFile IsDir ReadFile Reader Lstat Filespace
+
+//@ func ROFilespace.CopyDirectory [C03 C06 C07]
+//@   requires ro.fs != nil
+//@   at_call Filespace.* requires false
+//@   only_calls ro.fs : ReadDir IsExist IsFile IsDir ReadFile Reader Lstat Filespace
+
+//@ func ROFilespace.CopyFile [C03 C06 C07]
+//@   requires ro.fs != nil
+//@   at_call Filespace.* requires false
+//@   only_calls ro.fs : ReadDir IsExist IsFile IsDir ReadFile Reader Lstat Filespace
+
+//@ func ROFilespace.ReadDir [C03 C06 C07]
+//@   requires ro.fs != nil
+//@   at_call Filespace.ReadDir requires $0 == $p0
+//@   at_call Filespace.*,!Filespace.ReadDir requires false
+//@   only_calls ro.fs : ReadDir IsExist IsFile IsDir ReadFile Reader Lstat Filespace
+
+//@ func ROFilespace.IsExist [C03 C06 C07]
+//@   requires ro.fs != nil
+//@   at_call Filespace.IsExist requires $0 == $p0
+//@   at_call Filespace.*,!Filespace.IsExist requires false
+//@   only_calls ro.fs : ReadDir IsExist IsFile IsDir ReadFile Reader Lstat Filespace
+
+//@ func ROFilespace.IsFile [C03 C06 C07]
+//@   requires ro.fs != nil
+//@   at_call Filespace.IsFile requires $0 == $p0
+//@   at_call Filespace.*,!Filespace.IsFile requires false
+//@   only_calls ro.fs : ReadDir IsExist IsFile IsDir ReadFile Reader Lstat Filespace
+
+//@ func ROFilespace.IsDir [C03 C06 C07]
+//@   requires ro.fs != nil
+//@   at_call Filespace.IsDir requires $0 == $p0
+//@   at_call Filespace.*,!Filespace.IsDir requires false
+//@   only_calls ro.fs : ReadDir IsExist IsFile IsDir ReadFile Reader Lstat Filespace
+
+//@ func ROFilespace.MkdirAll [C03 C06 C07]
+//@   requires ro.fs != nil
+//@   at_call Filespace.* requires false
+//@   only_calls ro.fs : ReadDir IsExist IsFile IsDir ReadFile Reader Lstat Filespace
+
+//@ func ROFilespace.ReadFile [C03 C06 C07]
+//@   requires ro.fs != nil
+//@   at_call Filespace.ReadFile requires $0 == $p0
+//@   at_call Filespace.*,!Filespace.ReadFile requires false
+//@   only_calls ro.fs : ReadDir IsExist IsFile IsDir ReadFile Reader Lstat Filespace
+
+//@ func ROFilespace.WriteFile [C03 C06 C07]
+//@   requires ro.fs != nil
+//@   at_call Filespace.* requires false
+//@   only_calls ro.fs : ReadDir IsExist IsFile IsDir ReadFile Reader Lstat Filespace
+
+// the child of a read-only view is again a read-only mask (over a sub-path view of the same inner filespace)
+//@ func ROFilespace.Filespace [C03 C06 C07]
+//@   requires ro.fs != nil
+//@   at_call Filespace.* requires false
+//@   ensures result1 == nil && typeis(result0, "ROFilespace") && typeis(as(result0, "ROFilespace").fs, "SubFS") && as(as(result0, "ROFilespace").fs, "SubFS").fs == ro.fs
+
+//@ func ROFilespace.Reader [C03 C06 C07]
+//@   requires ro.fs != nil
+//@   at_call Filespace.Reader requires $0 == $p0
+//@   at_call Filespace.*,!Filespace.Reader requires false
+//@   only_calls ro.fs : ReadDir IsExist IsFile IsDir ReadFile Reader Lstat Filespace
+
+//@ func ROFilespace.Writer [C03 C06 C07]
+//@   requires ro.fs != nil
+//@   at_call Filespace.* requires false
+//@   only_calls ro.fs : ReadDir IsExist IsFile IsDir ReadFile Reader Lstat Filespace
+
+//@ func ROFilespace.Remove [C03 C06 C07]
+//@   requires ro.fs != nil
+//@   at_call Filespace.* requires false
+//@   only_calls ro.fs : ReadDir IsExist IsFile IsDir ReadFile Reader Lstat Filespace
+
+//@ func ROFilespace.RemoveAll [C03 C06 C07]
+//@   requires ro.fs != nil
+//@   at_call Filespace.* requires false
+//@   only_calls ro.fs : ReadDir IsExist IsFile IsDir ReadFile Reader Lstat Filespace
+
+//@ func ROFilespace.Lstat [C03 C06 C07]
+//@   requires ro.fs != nil
+//@   at_call Filespace.Lstat requires $0 == $p0
+//@   at_call Filespace.*,!Filespace.Lstat requires false
+//@   only_calls ro.fs : ReadDir IsExist IsFile IsDir ReadFile Reader Lstat Filespace
+
+
+//@ type SubFS
+//@   field basePath immutable
+//@   field fs immutable
+//@ type ROFilespace
+//@   field fs immutable
